@@ -1,3 +1,4 @@
+import Model.ConfigYaml
 /-!
 # Configuration resolution as wired by `config.Load` (pkg/config/config.go)
 
@@ -121,6 +122,82 @@ def runLoads (T : Table) (D : Layer) : List (Layer × Layer) → Layer
 def save (T : Table) (c : String → String) : Layer :=
   (T.fields.filter (fun f => f.yaml ≠ "-")).map fun f => (f.yaml, c f.go)
 
+/-! ## `SaveAsYaml` at the value level
+
+`save` above is the file at the level of key paths: every value comes back as it was written.  That
+is what the YAML writer/reader pair does for the values `Yaml.YamlSafe` describes, and NOT for
+others (`Model/ConfigYaml.lean`): a string option may come back retyped, may make the reader
+refuse the whole file (`Load` then silently uses no file at all), or may be taken for a date
+(`Load` fails).  Options of the other kinds hold canonical renderings (`canonical`), which the
+pair preserves. -/
+
+/-- canonical rendering of a value of the option's kind (what `strconv`/`Duration.String` print);
+exact for `bool`, `uint`, `int`; for `float`/`duration` only "not empty" -/
+def canonical (kind v : String) : Bool :=
+  let uint (s : List Char) : Bool := !s.isEmpty && s.all Yaml.isDigit && (s = ['0'] || s.head? ≠ some '0')
+  if kind = "bool" then v = "true" || v = "false"
+  else if kind = "uint" then uint v.toList
+  else if kind = "int" then (match v.toList with | '-' :: r => uint r && r ≠ ['0'] | s => uint s)
+  else if kind = "string" then true
+  else v ≠ ""
+
+/-- `c` is a configuration: every option holds a value of its kind -/
+def WellTyped (T : Table) (c : String → String) : Prop := ∀ f ∈ T.fields, canonical f.kind (c f.go) = true
+
+instance (T : Table) (c : String → String) : Decidable (WellTyped T c) := by unfold WellTyped; infer_instance
+
+/-- every string option holds a value the YAML writer/reader pair preserves -/
+def AllYamlSafe (T : Table) (c : String → String) : Prop :=
+  ∀ f ∈ T.fields, f.kind = "string" → Yaml.YamlSafe (c f.go) = true
+
+instance (T : Table) (c : String → String) : Decidable (AllYamlSafe T c) := by unfold AllYamlSafe; infer_instance
+
+/-- what happens to the value of one option on its way through the file -/
+def fieldOutcome (c : String → String) (f : Field) : Yaml.Outcome :=
+  if f.kind = "string" then Yaml.roundTripS (c f.go) else .same
+
+/-- the value `Load` finds in the file for the option -/
+def yamlValue (c : String → String) (f : Field) : String :=
+  match fieldOutcome c f with
+  | .retyped w => String.ofList w
+  | _ => c f.go
+
+/-- what `SaveAsYaml c` leaves for the reader -/
+inductive Saved where
+  | file (l : Layer) (dates : List String)  -- parsed content; keys whose value the reader takes for a date
+  | unparsable                              -- the reader refuses the file
+  | unmodelled                              -- some value is outside the validated domain of `Yaml.roundTrip`
+
+def saveYaml (T : Table) (c : String → String) : Saved :=
+  let fs := T.fields.filter (fun f => f.yaml ≠ "-")
+  if fs.any (fun f => fieldOutcome c f == .unmodelled) then .unmodelled
+  else if fs.any (fun f => fieldOutcome c f == .fileBroken) then .unparsable
+  else .file (fs.map fun f => (f.yaml, yamlValue c f))
+             ((fs.filter fun f => fieldOutcome c f == .loadError).map (·.yaml))
+
+inductive Loaded (α : Type) where
+  | ok (a : α)
+  | error          -- `Load` returns an error
+  | unmodelled
+  deriving DecidableEq
+
+/-- the file content the reader presents after `SaveAsYaml c` (nothing when it refuses the file;
+for a value outside the model's domain the model has nothing to present either) -/
+def savedFile (T : Table) (c : String → String) : Layer :=
+  match saveYaml T c with
+  | .file l _ => l
+  | _ => []
+
+/-- `SaveAsYaml c`, then `Load` with command line `args`; `g` = what to compute from the file `Load`
+sees.  An unparsable file is no file (`Load` discards the reader's error); a date under a key that
+no given flag overrides makes the decoder fail. -/
+def loadSaved {α : Type} (T : Table) (args : Layer) (c : String → String) (g : Layer → α) : Loaded α :=
+  match saveYaml T c with
+  | .unmodelled => .unmodelled
+  | .unparsable => .ok (g [])
+  | .file l dates =>
+    if dates.any (fun k => ((flagLayer T args).lookup k).isNone) then .error else .ok (g l)
+
 /-- one step of a history through ONE command (its command line is fixed for the whole history):
 the configuration file is replaced - by hand (`load file`) or by `SaveAsYaml c` (`saveLoad c`) -
 and `Load` is called through that command -/
@@ -131,7 +208,7 @@ inductive HistOp where
 /-- the file `Load` finds at that step -/
 def HistOp.file (T : Table) : HistOp → Layer
   | .load file => file
-  | .saveLoad c => save T c
+  | .saveLoad c => savedFile T c
 
 /-- what a history of load / save→load steps through one command with command line `args` leaves
 behind (the only thing a `Load` of the model leaves behind is what it decoded into memory shared
